@@ -20,18 +20,18 @@ variable {H S F : Type} [DecidableEq H]
 
 /-- **Transparency** for histories whose edits change options (and files): as C18, where `henc` now also says that on the
     history's inputs equal hash data implies equal option values (`View.opts`). -/
-theorem option_history_transparent_partial (W : World H S F) (t0 : Tree) (evs : List Event)
+theorem option_history_transparent_generic (W : World H S F) (t0 : Tree) (evs : List Event)
     (hinj : Function.Injective W.hash)
     (henc : KeyFaithfulOn W.enc ((runsOf t0 evs).flatMap (·.2)))
     (hmac : ∀ r ∈ runsOf t0 evs, MacroFree W r.1 r.2)
     (hmap : ∀ r ∈ runsOf t0 evs, MapOK W.lk (r.2.map (·.path)))
     (hsum : ∀ r ∈ cachedRuns W ([], []) t0 evs, SummFree W r.1 r.2) :
     execCached W ([], []) t0 evs = execFresh W t0 evs :=
-  history_transparent_partial W t0 evs hinj henc hmac hmap hsum
+  history_transparent_generic W t0 evs hinj henc hmac hmap hsum
 
-/-- with the proposed key composition the only option-specific hypothesis is `hopt`: toolinfo determines the option values
+/-- with the key composition of the current code the only option-specific hypothesis is `hopt`: toolinfo determines the option values
     the analysis reads -/
-theorem option_history_transparent_fixed (W : World H S F) (t0 : Tree) (evs : List Event)
+theorem option_history_transparent_partial (W : World H S F) (t0 : Tree) (evs : List Event)
     (henc : W.enc = Encoding.fixed) (hlk : W.lk = .exactFirst)
     (hinj : Function.Injective W.hash)
     (hpath : ∀ r ∈ runsOf t0 evs, ∀ i ∈ r.2, PathPrefixed i)
@@ -40,7 +40,7 @@ theorem option_history_transparent_fixed (W : World H S F) (t0 : Tree) (evs : Li
     (hmac : ∀ r ∈ runsOf t0 evs, MacroFree W r.1 r.2)
     (hsum : ∀ r ∈ cachedRuns W ([], []) t0 evs, SummFree W r.1 r.2) :
     execCached W ([], []) t0 evs = execFresh W t0 evs :=
-  history_transparent_fixed W t0 evs henc hlk hinj hpath hopt hnd hmac hsum
+  history_transparent_partial W t0 evs henc hlk hinj hpath hopt hnd hmac hsum
 
 /-- an option history that satisfies the hypotheses: the option value is written into toolinfo, both option sets are analysed -/
 example :
@@ -69,24 +69,29 @@ theorem uncovered_option_counterexample :
 /-- the fields CppCheck::calculateHash streams into toolinfo today -/
 def currentHashFields : List String := hashFieldsOf Cppcheck.Gen.HashInput.toolinfoItems
 
-/-- the options of the property's list whose handler writes a field that is neither hashed, nor derived from a hashed field,
-    nor re-applied after the cache, nor visible in the token stream – each demonstrated on the real binary
-    (known findings `option-not-in-key:<option>`) -/
-def knownUncovered : List String :=
-  ["--inconclusive", "-U", "--std=", "--language=", "--platform=", "--library=",
-   "--enable=all", "--enable=unusedFunction", "--enable=missingInclude",
-   "--disable=all", "--disable=unusedFunction", "--disable=missingInclude"]
+/-- the options of the property's list whose handler writes something that is neither hashed, nor derived from a hashed field,
+    nor re-applied after the cache, nor visible in the token stream, in the code as it is (after commit 40d3d51):
+    `--language=` / `-x` sets the command line parser's `mEnforcedLang`, which becomes `file.lang()` – not a `Settings` member and
+    not streamed into toolinfo (known finding `option-not-in-key:--language=`) -/
+def knownUncovered : List String := ["--language="]
 
-/-- every other analysis option of the list is covered by the key the code computes today -/
+/-- **every other analysis option of the list reaches the key** the code computes today -/
 theorem options_covered_partial :
     ∀ o ∈ Cppcheck.Gen.OptionUse.options, o.name ∉ knownUncovered →
       optionCovered currentHashFields Cppcheck.Gen.OptionUse.readSeverities o = true := by
   decide +kernel
 
-/-- the unconditional statement is false for the key composition of the pinned commit, exactly at the listed options -/
+/-- … and `--language=` does not -/
 theorem options_covered_counterexample :
-    (Cppcheck.Gen.OptionUse.options.filter fun o => !optionCovered legacyHashFields Cppcheck.Gen.OptionUse.readSeverities o).map (·.name)
+    (Cppcheck.Gen.OptionUse.options.filter fun o => !optionCovered currentHashFields Cppcheck.Gen.OptionUse.readSeverities o).map (·.name)
       = knownUncovered := by
+  decide +kernel
+
+/-- the toolinfo chain of the pinned commit (before 40d3d51) left all of these options outside the key -/
+theorem options_covered_legacy_counterexample :
+    (Cppcheck.Gen.OptionUse.options.filter fun o => !optionCovered legacyHashFields Cppcheck.Gen.OptionUse.readSeverities o).map (·.name)
+      = ["--inconclusive", "-U", "--std=", "--language=", "--platform=", "--library=",
+         "--enable=all", "--enable=unusedFunction", "--enable=missingInclude", "--disable=all", "--disable=missingInclude"] := by
   decide +kernel
 
 /-- the table is the one the property's option list asks for (guards against an empty translation) -/
